@@ -520,6 +520,7 @@ def ssqrt(x, square_axiom=True):
     c = cur()
     if square_axiom:
         c.axiom(z3.Implies(t >= 0, z3.And(y >= 0, y * y == t)), "sqrt")
+    c.axiom(z3.Implies(t == 0, y == 0), "sqrt.zero")
     tq = z3.Real("t!sqrt")
     c.axiom_global(z3.ForAll([tq], uf("sqrt", R, R)(tq) >= 0, patterns=[uf("sqrt", R, R)(tq)]), "sqrt.nonneg")
     c.note_uf("sqrt", t)
@@ -832,8 +833,9 @@ def ite_any(c, a, b):
     return site(c, a, b)
 
 
-def known(cond):
-    """True / False when the path hypotheses decide `cond` (quick solver query, no fork), else None"""
+def known(cond, deep=False):
+    """True / False when the path hypotheses decide `cond` (quick solver query, no fork), else None.
+    deep: also ask with the quantified hypotheses (slower)"""
     if isinstance(cond, (bool, np.bool_)):
         return bool(cond)
     if not has_ctx():
@@ -844,6 +846,8 @@ def known(cond):
         return True
     if not c._feasible(t):
         return False
+    if deep:
+        return c._decide_full(t, 1500)
     return None
 
 
@@ -872,7 +876,7 @@ def norm_index(k, n):
     """python's negative-index rule; the case distinction is resolved by the path hypotheses where possible"""
     if not is_sym(k):
         return k + n if k < 0 else k
-    neg = known(k < 0)
+    neg = known(k < 0, deep=True)
     if neg is False:
         return k
     if neg is True:
